@@ -597,13 +597,20 @@ class BooleanOperator(EvaluationNode):
             return self.operator(bool(left), bool(right))
 
         # comparisons as defined in section 3.4 of the XPath 1.0 specs
+        if isinstance(left, bool) or isinstance(right, bool):
+            # an attribute is a node set that is true if the attribute exists
+            if isinstance(self.left, AttributeValue):
+                left = left is not None
+            if isinstance(self.right, AttributeValue):
+                right = right is not None
+            if self.operator in (operator.eq, operator.ne):
+                return self.operator(bool(left), bool(right))
+            return self.operator(_to_number(left), _to_number(right))
         if left is None or right is None:
             # the value of a missing attribute is an empty node set
             return False
         if self.operator not in (operator.eq, operator.ne):
             left, right = _to_number(left), _to_number(right)
-        elif isinstance(left, bool) or isinstance(right, bool):
-            left, right = bool(left), bool(right)
         elif isinstance(left, (int, float)) or isinstance(right, (int, float)):
             left, right = _to_number(left), _to_number(right)
         return self.operator(left, right)
